@@ -171,37 +171,33 @@ MkPair(ref, t, rev, a, b, c, d, pf, pr, qf, qr) ==
 MkSingle(ref, t, rev, a, b, pf, qf) == [ reads |-> << MkRead(ref, t, 1, rev, a, b, pf, qf) >> ]
 
 Intervals == { <<a, b>> \in (0 .. L) \X (0 .. L) : a < b }
-ContextScenarios ==
-    { [ ref |-> ref, rev |-> rev, conv |-> conv,
-        frags |-> << MkPair(ref, Target(rev, conv), rev, 0, L, 0, L, pat, pat, 2, 2) >> ] :
-      ref \in [1 .. L -> Alphabet], rev \in BOOLEAN, conv \in {"F", "R"}, pat \in {"keep", "conv", "other"} }
 QualPairs == { <<2, 1>>, <<1, 2>>, <<1, 1>> }
-GeomFrag1(ref, rev, conv) ==
-    { MkPair(ref, Target(rev, conv), rev, ab[1], ab[2], cd[1], cd[2], pf, pr, qq[1], qq[2]) :
-        ab \in Intervals, cd \in Intervals, pf \in {"keep", "conv"}, pr \in {"keep", "conv"}, qq \in QualPairs }
-    \cup { MkSingle(ref, Target(rev, conv), rev, ab[1], ab[2], pf, 2) : ab \in Intervals, pf \in {"keep", "conv"} }
-(* a second fragment of the same molecule shares read 1's interval (same cut site) *)
-R1Of(f) == f.reads[CHOOSE i \in DOMAIN f.reads : f.reads[i].mate = 1]
-GeomFrag2(ref, rev, conv, f1) ==
-    LET r1 == R1Of(f1) a == r1.start b == r1.start + Len(r1.seq) IN
-    { IF rev THEN MkPair(ref, Target(rev, conv), rev, cd[1], cd[2], a, b, pm, pm, 1, 2)
-             ELSE MkPair(ref, Target(rev, conv), rev, a, b, cd[1], cd[2], pm, pm, 2, 1) :
-        cd \in Intervals, pm \in {"keep", "conv"} }
-PairFrags1(ref, rev, conv) == { f \in GeomFrag1(ref, rev, conv) : Len(f.reads) = 2 }
-GeomOf(ref, rev, conv) ==
-    { << f1 >> : f1 \in GeomFrag1(ref, rev, conv) }
-    \cup (IF MaxFrags >= 2
-          THEN UNION { { << f1, f2 >> : f2 \in GeomFrag2(ref, rev, conv, f1) } : f1 \in PairFrags1(ref, rev, conv) }
-          ELSE {})
-(* geometry mode uses references in which every position is a target for some strand/convention *)
+Pats2 == {"keep", "conv"}
+Scn(ref, rev, conv, fs) == [ ref |-> ref, rev |-> rev, conv |-> conv, frags |-> fs ]
+(* context mode: every reference window over the alphabet, one fragment whose mates both span the whole contig *)
+IsContextScenario(s) ==
+    \E ref \in [1 .. L -> Alphabet], rev \in BOOLEAN, conv \in {"F", "R"}, pat \in {"keep", "conv", "other"} :
+        s = Scn(ref, rev, conv, << MkPair(ref, Target(rev, conv), rev, 0, L, 0, L, pat, pat, 2, 2) >>)
+(* geometry mode: references in which every position is a target for some strand/convention; every placement *)
+(* of the two mates (overlapping, dove-tailed on either side, disjoint, outward), every quality relation,     *)
+(* single-end fragments, and optionally a second fragment of the same molecule (same read-1 interval)         *)
 RefByName(n) == CASE n = "allC" -> [ i \in 1 .. L |-> "C" ]
                   [] n = "allG" -> [ i \in 1 .. L |-> "G" ]
                   [] n = "CG"   -> [ i \in 1 .. L |-> IF i % 2 = 1 THEN "C" ELSE "G" ]
                   [] n = "GC"   -> [ i \in 1 .. L |-> IF i % 2 = 1 THEN "G" ELSE "C" ]
-GeometryScenarios ==
-    UNION { { [ ref |-> rc[1], rev |-> rc[2], conv |-> rc[3], frags |-> fs ] : fs \in GeomOf(rc[1], rc[2], rc[3]) } :
-            rc \in { RefByName(n) : n \in GeomRefs } \X BOOLEAN \X {"F", "R"} }
-Scenarios == IF Mode = "context" THEN ContextScenarios ELSE GeometryScenarios
+IsGeometryScenario(s) ==
+    \E n \in GeomRefs, rev \in BOOLEAN, conv \in {"F", "R"} :
+        LET ref == RefByName(n) t == Target(rev, conv) IN
+        \/ \E ab \in Intervals, pf \in Pats2 : s = Scn(ref, rev, conv, << MkSingle(ref, t, rev, ab[1], ab[2], pf, 2) >>)
+        \/ \E ab \in Intervals, cd \in Intervals, pf \in Pats2, pr \in Pats2, qq \in QualPairs :
+              LET f1 == MkPair(ref, t, rev, ab[1], ab[2], cd[1], cd[2], pf, pr, qq[1], qq[2]) IN
+              \/ s = Scn(ref, rev, conv, << f1 >>)
+              \/ /\ MaxFrags >= 2
+                 /\ \E xy \in Intervals, pm \in Pats2 :
+                      s = Scn(ref, rev, conv,
+                              << f1, IF rev THEN MkPair(ref, t, rev, xy[1], xy[2], cd[1], cd[2], pm, pm, 1, 2)
+                                            ELSE MkPair(ref, t, rev, ab[1], ab[2], xy[1], xy[2], pm, pm, 2, 1) >>)
+IsScenario(s) == IF Mode = "context" THEN IsContextScenario(s) ELSE IsGeometryScenario(s)
 
 ---------------------------------------------------------------------------------------------------
 (* D-level *)
@@ -222,7 +218,7 @@ Get(f, k, dflt) == IF k \in DOMAIN f THEN f[k] ELSE dflt
 Put(f, k, v) == [ x \in DOMAIN f \cup {k} |-> IF x = k THEN v ELSE f[x] ]
 SortedSeq(S) == LET F[T \in SUBSET S] == IF T = {} THEN <<>> ELSE <<MinOf(T)>> \o F[T \ {MinOf(T)}] IN F[S]
 
-Init == /\ scn \in Scenarios
+Init == /\ IsScenario(scn)
         /\ pc = "target" /\ target = "-" /\ fi = 1 /\ tally = Empty /\ cons = Empty /\ todo = <<>>
         /\ calls = Empty /\ ri = 1 /\ tagged = <<>>
 
